@@ -10,6 +10,7 @@ E1_PROPS = ('C01', 'C02', 'C03', 'C04', 'C05', 'C06', 'C07', 'C09', 'C10', 'C12'
 
 # violations of these other monitors count for the property when they occur in its scenarios
 ALSO = {
+    'C04': ('C10',),                         # (only its runs with dynamic membership have a C10 monitor)
     'C06': ('C01', 'C02', 'C04', 'C05'),     # rebuilt state / acknowledged commands / convergence after restarts
     'C07': (),
     'C09': ('C01', 'C05', 'C10'),            # state after install = prefix; lagging follower converges; member set restored
@@ -112,6 +113,18 @@ def gen_cfg(prop, tier, seed, i):
         w['submit'] = max(w['submit'], 6)
     if prop == 'C04':
         cfg['bias'] = pick(r, ['none', 'ackstarve', 'slowfollower'], [1, 3, 2])
+        r2 = random.Random(h32('c04dyn', seed, i))
+        if r2.random() < 0.1:
+            # "a majority of the voting members" while the member set changes (several requests in quick succession included)
+            cfg['sim'] = 'member'
+            cfg['n'] = pick(r2, [2, 3, 3, 4])
+            cfg['journal'] = 'memory'
+            cfg['n_ro'] = 0
+            w['member'] = pick(r2, [1.0, 3.0])
+            w['operator'] = pick(r2, [0.5, 1.0])
+            cfg['readd_anytime'] = False
+            cfg['queue'] = 100000
+            cfg.pop('consumers', None)
     if prop == 'C05':
         cfg['n_ro'] = pick(r, [0, 0, 1, 2])
         cfg['quiet_minority_down'] = random.Random(h32('qmd', seed, i)).random() < 0.3
